@@ -52,7 +52,10 @@ fn gen_program(r: &mut Rng, tier: Tier) -> (Vec<u8>, &'static str) {
 }
 
 pub fn gen_scenario(r: &mut Rng, tier: Tier) -> (Scenario, &'static str) {
-    let (code, family) = gen_program(r, tier);
+    let (mut code, family) = gen_program(r, tier);
+    if r.chance(1, 20) {
+        workload::end_on_last_jumpdest(&mut code);
+    }
     let knobs = workload::mixed_knobs(r, 50);
     let sched = if r.chance(1, 2) {
         Sched::natural(r.next())
